@@ -28,6 +28,9 @@ inductive Op where
   | obs (obj : Nat)
   | len (obj : Nat)
   | rd (obj i : Nat)
+  | blen (obj : Nat)                    -- ValueByteLength
+  | appd (obj : Nat)                    -- append the element type's Default view
+  | setd (obj i : Nat)                  -- set slot i to the element type's Default view
   deriving Repr
 
 inductive Out where
@@ -128,6 +131,13 @@ def hooked (parentTy elemTy : Ty) : Bool :=
     | .container _ => true
     | _ => false
 
+/-- element type of slot `i` (containers: the field's type; out of range: the first field's) -/
+def slotTyV (t : Ty) (i : Nat) : Ty :=
+  match t with
+  | .vector e _ | .list e _ => e
+  | .container fs => (fs[i]?).getD (fs.headD .bool)
+  | _ => .bool
+
 def stepV (h : HashFn) (st : VStore) : Op → VStore × Out
   | .get p i =>
     match st[p]? with
@@ -178,6 +188,12 @@ def stepV (h : HashFn) (st : VStore) : Op → VStore × Out
       match valElem o.ty o.val i with
       | some (_, x) => (st, .val x)
       | none => (st, .err)
+  | .blen id =>
+    match st[id]? with
+    | none => (st, .nohandle)
+    | some o => (st, .num (serialize o.ty o.val).length)
+  | .appd id => mutateV st id fun o => valAppend o.ty o.val (defaultVal (slotTyV o.ty 0))
+  | .setd id i => mutateV st id fun o => valSet o.ty o.val i (defaultVal (slotTyV o.ty i))
 
 /-! ### object machine (Model P) -/
 
@@ -304,5 +320,29 @@ def stepM (h : HashFn) (st : Store) : Op → Store × Out
       match r with
       | .ok v => (st, .val v)
       | .error e => (st, outOfErr e)
+  | .blen id =>
+    match st[id]? with
+    | none => (st, .nohandle)
+    | some o =>
+      match valueByteLength o.ty o.node with
+      | .ok n => (st, .num n)
+      | .error e => (st, outOfErr e)
+  | .appd id =>
+    match st[id]? with
+    | none => (st, .nohandle)
+    | some o =>
+      match o.ty with
+      | .list _ _ | .bitlist _ =>
+        (match defaultNode h (slotTy o.ty 0) with
+         | .error e => (st, outOfErr e)
+         | .ok en => mutateM h st id (Mut.append h o.ty o.node (defaultVal (slotTy o.ty 0)) en))
+      | _ => (st, .err)
+  | .setd id i =>
+    match st[id]? with
+    | none => (st, .nohandle)
+    | some o =>
+      match defaultNode h (slotTy o.ty i) with
+      | .error e => (st, outOfErr e)
+      | .ok en => mutateM h st id (Mut.set h o.ty o.node i (defaultVal (slotTy o.ty i)) en)
 
 end ZtypV.Sim
